@@ -19,9 +19,32 @@ reference interpreter over the checker's own AST):
        kwargs, self, _x, camelCase, non-ASCII ...) by let / unpack / keyword
        argument of a defined function / of a delegate;
  (v)   grammar and nests again in a context whose host overrides
-       #get_context_data (language reference, "Variable access").
+       #get_context_data (language reference, "Variable access");
+ (vi)  per-element lambdas that fail for ONE element: partial functions of the
+       element (first / last / single of an inner collection, dict([pair]),
+       index, the same behind let inside the lambda) x every way of running
+       them once per row (select positional / by keyword, where, inside a map
+       / list constructor, toDict key / value, distinct, a def'd function
+       called per element, a let-bound collection, `.tags` mapped over the
+       rows, behind a guard that removes the failing rows) x what is done with
+       the result (handed out, counted, only its first element asked for),
+       over ALL documents of <= R rows whose inner collections are empty /
+       one / two elements long - so the failing element stands at every
+       position, at several and at none.  The reference says the error
+       propagates out of the iteration exactly when the failing element is
+       consumed; a shortened collection is a mismatch;
+ (vii) def(name, ...) and let(name => lambda(...)) with names of standard
+       library functions and methods (len, first, sum, select, where, distinct,
+       let ...): every body (constant, argument, every library name used as
+       method - the own name included - and as function) x every use in the
+       scope (every library name as method and as function, the bound thing
+       inside the lambda of a method) x where scope and use sit (right of `->`,
+       use inside a per-element lambda, binding inside a per-element lambda,
+       next to the scope, rebinding).  A def introduces a function, a let a
+       variable: `x.name()` keeps reaching the library method.
 
-Values are compared exactly, errors coarsely (error <-> error).
+Values are compared exactly, errors coarsely (error <-> error) except where the
+documentation names the exception (first / last / single: StopIteration).
 """
 import itertools
 
@@ -35,7 +58,8 @@ TITLE = 'core evaluation semantics'
 RULE = ('(i) all well-typed ASTs with <= N nodes from the typed grammar, per document; (ii) all nests / sibling '
         'sequences of <= D binders from the binder alphabet around the environment dump, per document; a case is '
         'distinct by (part, document, printed text) and non-trivial when the model defines its result and model '
-        'and implementation both produce a value (error<->error agreement is counted separately)')
+        'and implementation both produce a value (error<->error agreement is counted separately); (vi) all '
+        'partial x carrier x consumer programs per row document; (vii) all form x name x body x use x shape programs per document')
 ASSUMPTIONS = [
     'the engine is created with allow_delegates=True and the context with delegates=True (needed for lambda()/delegate calls); default options',
     'redundant parentheses are semantically neutral (the printer parenthesises defensively; delegate calls always)',
@@ -44,15 +68,26 @@ ASSUMPTIONS = [
     'results are compared after finalisation (iterables have become lists)',
     'outside the documented domain, counted but not judged: a one-shot iterable consumed twice, equality/ordering/truth of '
     'booleans against numbers or of iterables/contexts, composite dictionary keys, contexts or delegates in the result',
+    'an error is compared by class only where the docstring names it (first/last/single "raises StopIteration"); every other predicted '
+    'error matches any exception',
+    'redefined library names exclude def, lambda and dict: a function defined next to a library function of that name whose lambda '
+    'parameters / keyword policy differ makes the call ambiguous in the implementation, which the language reference does not describe',
 ]
 BOUNDS = {
     'quick': "grammar: <= 4 nodes over leaves {1 2 'a' null $ $2 $x $y} and 5 nodes over leaves {1 null $ $x}, 6 documents; "
              'nests: depth <= 2 over 57 binders (values 1 $ $x [$x] $2), 3 documents; depth 3 over 35 binders (values $ $x [$x]), 1 document; '
              'name nests: depth <= 2 over 12 unusual names x 5 binding forms + 3 ordinary binders, 1 document; '
-             'host override of #get_context_data: grammar <= 3 nodes and nests depth <= 2, 1 document',
+             'host override of #get_context_data: grammar <= 3 nodes and nests depth <= 2, 1 document; '
+             'element errors: 8 partial expressions x 13 carriers x 3 consumers (2 for dictionaries) over all 40 documents of <= 3 rows '
+             'with inner collections [] [a] [a,b]; library names: 2 binding forms (def, let+lambda) x 7 names (len first sum select where '
+             'distinct let) x 15/16 bodies x 16/17 uses x 3 shapes (right of ->, use in a per-element lambda, binding in a per-element '
+             'lambda), 1 document',
     'thorough': 'grammar: <= 5 nodes over the full leaves, 6 documents, 6 nodes, 2 documents; nests: depth <= 3 over 57 binders, '
                 '3 documents; depth 4 over 24 binders (values $ $x), 1 document; name nests depth <= 2, 3 documents; '
-                'host override: grammar <= 4 nodes, 6 documents, nests depth <= 2, 3 documents',
+                'host override: grammar <= 4 nodes, 6 documents, nests depth <= 2, 3 documents; '
+                'element errors: 10 partial expressions x 13 carriers x 5 consumers (2 for dictionaries) over all 341 documents of <= 4 '
+                'rows with inner collections [] [a] [a,b] [b,a,c]; library names: 2 forms x 12 names (+ last toList single with toDict) x '
+                '25/26 bodies x 27/28 uses x 5 shapes (+ next to the scope, rebinding inside / outside), 3 documents',
 }
 
 # ---------------------------------------------------------------------------------
@@ -387,6 +422,180 @@ def nest_cases(valset, d, shard):
 
 
 # ---------------------------------------------------------------------------------
+# (vi) a per-element lambda that fails for one particular element
+# ---------------------------------------------------------------------------------
+# Documents {rows: [{n: 1, tags: T1}, {n: 2, tags: T2}, ...]}: every sequence of <= R rows over the tag
+# lists below, so that an empty (too short, too long) inner collection occurs at every position, at
+# several positions and at none.  The document name spells tag alphabet and sequence: 'rows:q/0,2,1'.
+TAGS_QUICK = ([], ['a'], ['a', 'b'])
+TAGS_FULL = ([], ['a'], ['a', 'b'], ['b', 'a', 'c'])
+TAGS = {'q': TAGS_QUICK, 't': TAGS_FULL}
+ROWS = ('attr', ('var', ''), 'rows')
+ROW_TAGS = ('attr', ('var', ''), 'tags')
+ROW_N = ('attr', ('var', ''), 'n')
+
+
+def elem_doc_names(tagset, max_rows):
+    out = []
+    for r in range(max_rows + 1):
+        for seq in itertools.product(range(len(TAGS[tagset])), repeat=r):
+            out.append('rows:%s/%s' % (tagset, ','.join(str(i) for i in seq)))
+    return out
+
+
+def partials(t):
+    """(name, expression over the inner collection t): partial functions of the element (fail on an empty /
+    one-element / longer inner collection) next to total ones."""
+    def m(name, *args):
+        return ('meth', t, name, list(args))
+    return [
+        ('first', m('first')),
+        ('last', m('last')),
+        ('single', m('single')),
+        ('first(null)', m('first', ('lit', None))),                                  # total
+        ('len', m('len')),                                                           # total
+        ('dict', ('call', 'dict', [('list', [t])], [])),                             # fails unless t is a pair
+        ('index0', ('index', t, ('lit', 0))),
+        ('let-first', ('arrow', ('call', 'let', [], [['t', t]]), ('meth', ('var', 't'), 'first', []))),
+        # thorough tier only
+        ('index1', ('index', t, ('lit', 1))),
+        ('lazy-first', ('meth', ('meth', t, 'select', [('var', '')]), 'first', [])),
+    ]
+
+
+N_PARTIALS = {'q': 8, 't': 10}
+
+
+def carriers(pname):
+    """(name, kind of the result, expression): every way of running the partial expression once per row."""
+    e = dict(partials(ROW_TAGS))[pname]
+    e_inner = dict(partials(('var', '')))[pname]          # `$` is the inner collection itself
+    guard = lambda op, k: ('meth', ROWS, 'where', [('bin', op, ('meth', ROW_TAGS, 'len', []), ('lit', k))])
+    return [
+        ('select', 'coll', ('meth', ROWS, 'select', [e])),
+        ('select(selector =>)', 'coll', ('meth', ROWS, 'select', [], [['selector', e]])),
+        ('where', 'coll', ('meth', ROWS, 'where', [('bin', '=', e, ('lit', 'a'))])),
+        ('select-map', 'coll', ('meth', ROWS, 'select', [('map', [[('lit', 'n'), ROW_N], [('lit', 't'), e]])])),
+        ('select-list', 'coll', ('meth', ROWS, 'select', [('list', [ROW_N, e])])),
+        ('toDict-value', 'dict', ('meth', ROWS, 'toDict', [ROW_N, e])),
+        ('toDict-key', 'dict', ('meth', ROWS, 'toDict', [e])),
+        ('distinct', 'coll', ('meth', ROWS, 'distinct', [e])),
+        ('def', 'coll', ('arrow', ('call', 'def', [('lit', 'h'), e], []),
+                         ('meth', ROWS, 'select', [('call', 'h', [('var', '')], [])]))),
+        ('let-select', 'coll', ('arrow', ('call', 'let', [], [['r', ROWS]]), ('meth', ('var', 'r'), 'select', [e]))),
+        ('attr-select', 'coll', ('meth', ('attr', ROWS, 'tags'), 'select', [e_inner])),
+        ('guard>0-select', 'coll', ('meth', guard('>', 0), 'select', [e])),
+        ('guard=1-select', 'coll', ('meth', guard('=', 1), 'select', [e])),
+    ]
+
+
+def consumers(kind, x, tier):
+    """What is done with the result: handed out (finalised), counted, or only partly consumed."""
+    out = [('id', x), ('len', ('meth', x, 'len', []))]
+    if kind == 'coll':
+        out.append(('first', ('meth', x, 'first', [])))
+        if tier == 't':
+            out += [('last', ('meth', x, 'last', [])),
+                    ('select', ('meth', x, 'select', [('list', [('var', '')])]))]
+    return out
+
+
+def elem_cases(tier):
+    for pname, _ in partials(ROW_TAGS)[:N_PARTIALS[tier]]:
+        for cname, kind, x in carriers(pname):
+            for kname, ast in consumers(kind, x, tier):
+                yield ast
+
+
+# ---------------------------------------------------------------------------------
+# (vii) def / lambda bindings named like functions and methods of the standard library
+# ---------------------------------------------------------------------------------
+# The language reference keeps `foo(x)` and `x.foo()` apart; def(name, ...) introduces a FUNCTION in the
+# scope right of `->`, let(name => lambda(...)) a VARIABLE: neither touches the method of that name.
+LIBNAMES_QUICK = ('len', 'first', 'sum', 'select', 'where', 'distinct', 'let')
+LIBNAMES_FULL = LIBNAMES_QUICK + ('last', 'toList', 'single', 'with', 'toDict')
+LIBNAMES = {'q': LIBNAMES_QUICK, 't': LIBNAMES_FULL}
+SHADOW_DOCS = {
+    'xs:mixed': {'xs': [3, 0, 2], 'ys': [[1, 2], [], [3]]},
+    'xs:empty': {'xs': [], 'ys': [[], [4]]},
+    'xs:one': {'xs': [2], 'ys': [[5]]},
+}
+XS, YS = ('attr', ('var', ''), 'xs'), ('attr', ('var', ''), 'ys')
+
+
+def as_method(name, x, hole):
+    """x.name(...) with the fewest arguments; a lambda parameter gets `hole`."""
+    if name in ('select', 'where'):
+        return ('meth', x, name, [hole])
+    if name == 'toDict':
+        return ('meth', x, name, [hole])
+    return ('meth', x, name, [])
+
+
+def shadow_uses(names, x, bound_call):
+    """Uses of library names on the collection x: each as a method and as a function; the lambda of a method
+    is `$` or a call of the bound function / delegate on `$`; and the bound function / delegate on x."""
+    out = []
+    for m in names:
+        for hole in ((('var', ''), bound_call(('var', ''))) if m in ('select', 'where', 'toDict') else (None,)):
+            out.append(as_method(m, x, hole))
+        out.append(('call', m, [x], []))
+    probe = bound_call(x)
+    if probe not in out:
+        out.append(probe)
+    return out
+
+
+def shadow_bodies(names, own, form):
+    """Bodies of the bound lambda: constants, its argument, and every library name used on the argument as a
+    method (the body's own name included) and as a function (the own name of a def excluded: recursion)."""
+    out = [('lit', 0), ('var', '')]
+    for m in names:
+        out.append(as_method(m, ('var', ''), ('var', '')))
+        if not (form == 'def' and m == own):
+            out.append(('call', m, [('var', '')], []))
+    return out
+
+
+def shadow_cases(nameset, shapes, k, K):
+    names = LIBNAMES[nameset]
+    i = 0
+    for form in ('def', 'let-lambda'):
+        for own in names:
+            if form == 'def':
+                bound_call = lambda a, own=own: ('call', own, [a], [])
+                binder = lambda body, own=own: ('call', 'def', [('lit', own), body], [])
+            else:
+                bound_call = lambda a, own=own: ('dcall', ('var', own), [a])
+                binder = lambda body, own=own: ('call', 'let', [], [[own, ('call', 'lambda', [body], [])]])
+            for body in shadow_bodies(names, own, form):
+                b = binder(body)
+                for shape in shapes:
+                    uses = shadow_uses(names, XS if shape in ('direct', 'sibling') else ('var', ''), bound_call)
+                    for u in uses:
+                        i += 1
+                        if i % K != k:
+                            continue
+                        if shape == 'direct':                   # the use is right of `->`
+                            yield ('arrow', b, u)
+                        elif shape == 'sibling':                # ... and next to the scope, where nothing is bound
+                            yield ('list', [('arrow', b, u), u])
+                        elif shape == 'use-in-lambda':          # the use sits in a per-element lambda inside the scope
+                            yield ('arrow', b, ('meth', YS, 'select', [u]))
+                        elif shape == 'bind-in-lambda':         # the whole binding is made once per element
+                            yield ('meth', YS, 'select', [('arrow', b, u)])
+                        elif shape == 'rebound':                # an inner binding of the same name with another body
+                            yield ('arrow', binder(('lit', 1)), ('arrow', b, u))
+                            yield ('arrow', b, ('arrow', binder(('lit', 1)), u))
+                        else:
+                            raise AssertionError(shape)
+
+
+SHAPES_QUICK = ('direct', 'use-in-lambda', 'bind-in-lambda')
+SHAPES_FULL = SHAPES_QUICK + ('sibling', 'rebound')
+
+
+# ---------------------------------------------------------------------------------
 # execution
 # ---------------------------------------------------------------------------------
 # A host that overrides variable access: names bound in no scope are answered from an external table,
@@ -423,9 +632,24 @@ def observe(text, doc, host=False):
 
 
 def agree(obs, exp):
+    """Values exactly; errors coarsely, except where the documentation names the exception class."""
     if exp[0] == 'e':
-        return obs[0] == 'e'
+        return obs[0] == 'e' and (exp[1] is None or obs[1] == exp[1])
     return obs[0] == 'v' and M.same(obs[1], exp[1])
+
+
+def document(name):
+    if name.startswith('rows:'):
+        tagset, seq = name[5:].split('/')
+        return {'rows': [{'n': i, 'tags': list(TAGS[tagset][int(j)])}
+                         for i, j in enumerate(seq.split(',') if seq else [], 1)]}
+    if name in SHADOW_DOCS:
+        return SHADOW_DOCS[name]
+    return DOC[name]
+
+
+def expected(ast, doc, host=False):
+    return M.run(ast, doc, external=EXTERNAL if host else None, classes=True)
 
 
 SKIP = ('lit', 'var', 'list')
@@ -480,8 +704,22 @@ def features(ast, out=None):
     return out
 
 
-def failure_key(ast, notes, host):
+PART_TITLE = {'elem': 'per-element lambda failing for one element',
+              'shadow': 'binding named like a library function/method'}
+
+
+def failure_key(part, ast, notes, host, obs, exp):
     # a named input class where the model can tell it, else the set of constructs involved
+    if part in PART_TITLE:
+        if exp[0] == 'e' and obs[0] == 'v':
+            what = 'a value is returned where the reference fails'
+        elif exp[0] == 'e':
+            what = 'documented %s, raised %s' % (exp[1], obs[1])
+        elif obs[0] == 'e':
+            what = 'raises %s where the reference has a value' % obs[1]
+        else:
+            what = 'another value'
+        return '%s: %s' % (PART_TITLE[part], what), None
     if 'unpack()/iterator' in notes:
         return 'unpack-positional-on-iterator', None
     if 'distinct-key/dict' in notes and 'toDict' in features(ast):
@@ -491,11 +729,11 @@ def failure_key(ast, notes, host):
 
 
 def judge(res, part, doc_name, ast):
-    doc = DOC[doc_name]
+    doc = document(doc_name)
     host = part.startswith('host')
     text = M.text(ast)
     res.case((part, doc_name, text))
-    exp = M.run(ast, doc, external=EXTERNAL if host else None)
+    exp = expected(ast, doc, host)
     notes = set(M.NOTES)
     obs = observe(text, doc, host)
     res.evaluations += 1
@@ -512,7 +750,7 @@ def judge(res, part, doc_name, ast):
             res.outcomes[part + ' error=error ' + obs[1]] += 1
         return
     res.outcomes[part + ' MISMATCH'] += 1
-    key, fs = failure_key(ast, notes, host)
+    key, fs = failure_key(part, ast, notes, host, obs, exp)
     res.fail(key, {'part': part, 'doc': doc_name, 'text': text, 'ast': ast, 'constructs': fs},
              'text %s with $ = %r: observed %r expected %r' % (text, doc, obs, exp))
 
@@ -532,6 +770,24 @@ def job_nests(valset, d, doc_name, k, K, part='nest'):
         judge(res, part, doc_name, ast)
         if res.states % 5000 == 1:
             res.sample({'text': M.text(ast), 'doc': doc_name, 'expected': repr(M.run(ast, DOC[doc_name]))}, limit=2)
+    return res
+
+
+def job_elem(tagset, max_rows, k, K):
+    res = Result()
+    names = elem_doc_names(tagset, max_rows)[k::K]
+    for ast in elem_cases(tagset):
+        for name in names:
+            judge(res, 'elem', name, ast)
+    res.sample({'text': M.text(ast), 'doc': name, 'expected': repr(expected(ast, document(name)))}, limit=1)
+    return res
+
+
+def job_shadow(nameset, shapes, doc_name, k, K):
+    res = Result()
+    for ast in shadow_cases(nameset, shapes, k, K):
+        judge(res, 'shadow', doc_name, ast)
+    res.sample({'text': M.text(ast), 'doc': doc_name, 'expected': repr(expected(ast, document(doc_name)))}, limit=1)
     return res
 
 
@@ -563,6 +819,10 @@ def jobs(tier, seed):
             grammar('full', n, one, 1, 'host-grammar')
         nests('full', 1, NEST_DOCS[:1], 1, 'host-nest')
         nests('full', 2, NEST_DOCS[:1], 2, 'host-nest')
+        for k in range(8):
+            out.append(('elem-q3-%d' % k, 'job_elem', ('q', 3, k, 8)))
+        for k in range(8):
+            out.append(('shadow-q-mixed-%d' % k, 'job_shadow', ('q', SHAPES_QUICK, 'xs:mixed', k, 8)))
     else:
         for n in (1, 2, 3, 4):
             grammar('full', n, DOCS, 1)
@@ -578,6 +838,11 @@ def jobs(tier, seed):
             grammar('full', n, DOCS, 1, 'host-grammar')
         nests('full', 1, NEST_DOCS, 1, 'host-nest')
         nests('full', 2, NEST_DOCS, 2, 'host-nest')
+        for k in range(32):
+            out.append(('elem-t4-%d' % k, 'job_elem', ('t', 4, k, 32)))
+        for name in sorted(SHADOW_DOCS):
+            for k in range(16):
+                out.append(('shadow-t-%s-%d' % (name, k), 'job_shadow', ('t', SHAPES_FULL, name, k, 16)))
     return out
 
 
@@ -602,10 +867,10 @@ def finish(total, tier):
 
 
 def replay(case):
-    ast, doc = case['ast'], DOC[case['doc']]
+    ast, doc = case['ast'], document(case['doc'])
     host = case['part'].startswith('host')
     text = M.text(ast)
-    exp = M.run(ast, doc, external=EXTERNAL if host else None)
+    exp = expected(ast, doc, host)
     obs = observe(text, doc, host)
     return {'text': text, 'observed': repr(obs), 'expected': repr(exp),
             'ok': exp is None or agree(obs, exp)}
